@@ -562,10 +562,13 @@ class DateTime(Column):
                 value = datetime(value.year, value.month, value.day)
             else:
                 raise ValidationError("{0} '{1}' is not a datetime object".format(self.column_name, value))
-        epoch = datetime(1970, 1, 1, tzinfo=value.tzinfo)
-        offset = get_total_seconds(epoch.tzinfo.utcoffset(epoch)) if epoch.tzinfo else 0
-
-        return int((get_total_seconds(value - epoch) - offset) * 1000)
+        # exact integer arithmetic on the UTC instant; the offset is the one in effect at `value`
+        # (not at the epoch), and sub-millisecond parts are floored like to_python does
+        offset = value.utcoffset()
+        delta = value.replace(tzinfo=None) - datetime(1970, 1, 1)
+        if offset is not None:
+            delta -= offset
+        return (delta.days * 86400 + delta.seconds) * 1000 + delta.microseconds // 1000
 
 
 class Date(Column):
